@@ -583,8 +583,11 @@ def adia_history_configs(tier):
     #  tier; in the quick tier two adiabatic reactions in a row are covered on real models by C06/gap_real_history)
     add('setter-then-adia', single, False)
     if not quick:
-        add('iso-then-adia', single, False); add('iso-then-adia', single, False, pkg='Q'); add('twice', single, False); add('twice', single, True); add('twice', par, False); add('twice', single, False, 'wt', 'Q'); add('iso-then-adia', single, True)
-        add('iso-then-adia', ser, False); add('twice', single, False, fail=1)
+        # (`twice` costs 8-10 min of nonlinear feasibility queries per configuration: one representative is kept in the thorough tier;
+        #  the parallel / weight-basis / phase-tagged / failing-solve variants of two adiabatic reactions in a row are bounded only,
+        #  C06/gap_real_history)
+        add('iso-then-adia', single, False); add('iso-then-adia', single, False, pkg='Q'); add('twice', single, False); add('iso-then-adia', single, True)
+        add('iso-then-adia', ser, False)
     # members / slices of sets on their own
     add('item', par, False, n=1, how='indexed'); add('item', ser, False, n=0, how='iterated')
     if not quick:
